@@ -171,7 +171,7 @@ func (vm *VM) convertPanic(msg any) error {
 		if err, ok := msg.(string); ok && strings.HasPrefix(err, "reflect: cannot convert slice with length") {
 			return vm.newPanic(runtimeError("runtime error:" + err[len("reflect:"):]))
 		}
-	case OpDelete:
+	case OpDelete, OpMapIndex, -OpMapIndex, OpMapIndexAny, -OpMapIndexAny:
 		if err, ok := msg.(runtime.Error); ok {
 			if s := err.Error(); strings.HasPrefix(s, "hash of unhashable type: ") {
 				return vm.newPanic(runtimeError(s))
